@@ -76,6 +76,7 @@ def legal(history, nports):
 
 class C17(Prop):
     id = "C17"
+    tour_noisy = False
     level = "fault_enumeration"
     technique = "action/fault histories on a real bridge; after every action: flag-vs-model, bind probe per port, sentinel delivery; end-of-history no-late-callback check"
     rule = ("history over {start, stop, async-with (normal body / raising body), send-then-stop-without-yielding, send-yield-1..4-times-then-stop, "
